@@ -796,6 +796,8 @@ def kani_playback(scratch, rf, units, logdir):
             cmd += ["-p", u["package"]]
         cmd += KANI_FLAGS + ["-Z", "concrete-playback", "--concrete-playback=print", "--harness", rf["harness"],
                              "--output-format", "terse"]
+        if u.get("cbmc_args"):
+            cmd += ["--cbmc-args"] + list(u["cbmc_args"])
         rc, out, note = run(cmd, cwd, scratch.env(), int(os.environ.get("VERIF_PLAYBACK_TIMEOUT", "1500")),
                             os.path.join(logdir, "playback-gen-%s.log" % rf["harness"]))
         _PLAYBACK_CACHE[ck] = (out, note)
